@@ -14,9 +14,17 @@
 (*                          configurations; gen1L: the 13-event stream;       *)
 (*                          genI: up to 6 cuts, progress and no progress       *)
 (*                          alternating (CONSTRAINT Interleaved).             *)
+(*                          genR: one cut anywhere, then runs of k bodies that *)
+(*                          end at offset 0, k up to MaxRetries + 1, followed  *)
+(*                          by a whole body (CONSTRAINT Runs); genK: the same  *)
+(*                          against a stuck server (the run never ends);       *)
+(*                          genS: single cuts on event boundaries, every       *)
+(*                          sequence of answers over the whole status class.   *)
 EXTENDS StreamCli, Json
 
-Viol == {nm \in {"ExactlyOnceInOrder", "NoTruncatedSurfaced", "ResumeCursor", "RealResponseWithinBudget", "CleanFailure"} :
+Viol == {nm \in {"ExactlyOnceInOrder", "NoTruncatedSurfaced", "ResumeCursor", "RealResponseWithinBudget", "CleanFailure",
+                 "BoundedRetries"} :
+           \/ nm = "BoundedRetries" /\ ~BoundedRetries(ObsOf)
            \/ nm = "ExactlyOnceInOrder" /\ ~ExactlyOnceInOrder(ObsOf)
            \/ nm = "NoTruncatedSurfaced" /\ ~NoTruncatedSurfaced(ObsOf)
            \/ nm = "ResumeCursor" /\ ~ResumeCursor(ObsOf)
@@ -29,6 +37,7 @@ AllShapes == Shapes
 FirstOnly == {[ids |-> "all", prime |-> "first"]}
 TwoShapes == {[ids |-> "all", prime |-> "first"], [ids |-> "all", prime |-> "none"]}
 PrimedShapes == {[ids |-> "all", prime |-> "first"], [ids |-> "all", prime |-> "every"]}
+IdShapes == {[ids |-> "all", prime |-> "first"], [ids |-> "all", prime |-> "every"], [ids |-> "all", prime |-> "none"]}
 
 \* State constraint of the generation configuration "genI" (interleaved progress / no progress): long
 \* scripts in which bodies that bring a new id across alternate with bodies that bring none, so that
@@ -41,10 +50,31 @@ Interleaved ==
     /\ i >= 2 => ~(NoProg(ObsOf, i) /\ NoProg(ObsOf, i - 1))
     /\ i >= 2 => ~(Progressed(i) /\ Progressed(i - 1))
 
+\* State constraint of the generation configurations "genR" / "genK" (runs of empty resumed bodies): the first
+\* body is cut anywhere; every later body is served whole or ends at offset 0 (read error or clean EOF: the
+\* server, or a proxy, accepts the resumption with 200 and delivers nothing; the same termination every time).
+\* With MaxCuts = 5 and MaxRetries
+\* up to 3 the runs have every length k from 1 to MaxRetries + 1 (the client gives up) after progress was made;
+\* at most MaxFailed attempts fail in between.
+EmptyBody(b) == b.knd # "none" /\ b.cls = "bnd" /\ b.n = 0
+NFailed == LET f[i \in 0..Len(recon)] ==
+                 IF i = 0 THEN Cardinality({j \in 1..Len(outs) : outs[j] # "ok"})
+                 ELSE f[i - 1] + Cardinality({j \in 1..Len(recon[i].outs) : recon[i].outs[j] # "ok"})
+           IN f[Len(recon)]
+Runs ==
+  /\ \A i \in 2..Len(bodies) : bodies[i].knd = "none" \/ EmptyBody(bodies[i]) \/ bodies[i].from >= cfg.M
+  /\ \A i, j \in 2..Len(bodies) :    \* one kind of termination per script (mixed kinds: gen2, gen3)
+        (EmptyBody(bodies[i]) /\ EmptyBody(bodies[j]) /\ bodies[i].from < cfg.M /\ bodies[j].from < cfg.M)
+           => bodies[i].knd = bodies[j].knd
+  /\ NFailed <= 1
+
 \* reachability witnesses (each must be VIOLATED, otherwise the model is vacuous)
 NeverResumed == ~(outcome = "resp" /\ Len(recon) >= 2)
 NeverExhausted == ~(failed /\ rwp > cfg.mr)
 NeverGaveUpAttempts == ~(failed /\ att > cfg.mr /\ cfg.mr > 0)
 NeverSynthetic == ~(outcome = "err" /\ ~failed)
 NeverStandaloneDone == ~(outcome = "open" /\ Len(recon) >= 1)
+\* a stuck server was given up on after progress had been made: more bodies than MaxCuts were cut
+NeverGaveUpOnStuck == ~(failed /\ cfg.tail = "stuck" /\ rwp > cfg.mr /\ prev # None /\ ncut > MaxCuts)
+NeverRetriedStatus == ~(outcome = "resp" /\ \E i \in 1..Len(recon) : \E j \in 1..Len(recon[i].outs) : recon[i].outs[j] \in TransientStatus)
 =============================================================================
